@@ -137,7 +137,19 @@ def probes_for(kind, model_items):
     values.update((-far, far))
     if kind == "dec":
         values.update(int(v) for v in list(values) if v == v.to_integral_value() and abs(v) < 10**6)
-    return sorted(values, key=lambda v: (decimal.Decimal(v), isinstance(v, int)))
+    result = sorted(values, key=lambda v: (decimal.Decimal(v), isinstance(v, int)))
+    if kind == "dec":
+        # the limits once more in other spellings of the same number (trailing zeros, no trailing zeros, exponent notation, negative zero)
+        exact = decimal.Context(prec=80)
+        seen = {str(v) for v in result}
+        for lo, hi in model_items:
+            for limit in (lo, hi):
+                if limit is not None:
+                    for other in (exact.multiply(limit, decimal.Decimal("1.00")), limit.normalize(exact), exact.multiply(limit, decimal.Decimal("1E+0")).normalize(exact), decimal.Decimal("-0") if limit == 0 else limit):
+                        if str(other) not in seen:
+                            seen.add(str(other))
+                            result.append(other)
+    return result
 
 
 def judge(case, part):
@@ -217,6 +229,39 @@ def judge(case, part):
         if observed != expected:
             narrowed = dict(shown, probes=[value if isinstance(value, int) else str(value)])
             part.fail(tag % ("accepted-outside" if observed else "rejected-inside"), narrowed, expected, observed)
+
+
+    if kind == "int" and len(model_items) >= 2 and all(limit is None or 1 <= limit <= 0x2100 for item in model_items for limit in item):
+        # the same description as the 'Allowed characters' of a data format, judged through a Text field: a value is accepted iff every character is inside
+        # an item - also one that sits in a gap between two items while its neighbours are at the outer limits
+        from cutplace import data, fields
+
+        try:
+            data_format = data.DataFormat("delimited")
+            data_format.set_property("allowed_characters", text)
+            field = fields.TextFieldFormat("x", False, "", "", data_format)
+        except Exception as error:
+            part.fail(tag % ("allowed-characters-declare-raised-" + type(error).__name__), shown, "accepted", repr(error))
+            return
+        inside = [v for v in probes if isinstance(v, int) and 1 <= v <= 0x2100 and intervals.accepts(model_items, v)]
+        for value in probes:
+            if not isinstance(value, int) or not 1 <= value <= 0x2100 or chr(value).isspace():
+                continue
+            texts = [chr(value)] + ([chr(min(inside)) + chr(value) + chr(max(inside))] if inside and not chr(min(inside)).isspace() and not chr(max(inside)).isspace() else [])
+            expected = intervals.accepts(model_items, value)
+            for cell in texts:
+                part.transitions += 1
+                part.validated += 1
+                try:
+                    field.validated(cell)
+                    observed = True
+                except errors.FieldValueError:
+                    observed = False
+                except Exception as error:
+                    part.fail(tag % ("allowed-characters-raised-" + type(error).__name__), dict(shown, probes=[value]), expected, repr(error))
+                    continue
+                if observed != expected:
+                    part.fail(tag % ("allowed-characters:" + ("accepted-outside" if observed else "rejected-inside")), dict(shown, probes=[value]), expected, [cell, observed])
 
 
 # ---- enumeration ---------------------------------------------------------------------------
